@@ -12,9 +12,20 @@ SEMS = [("add", "mul"), ("logaddexp", "add"), ("max", "add"), ("min", "add"), ("
 
 def gen_case(seed):
     src = SeedSource(seed)
-    family = src.pick(["general", "general", "reals", "semiring", "semiring", "gauss_chain", "gauss_int", "binders", "shaped", "shaped", "constant", "delta", "delta_ast", "delta_ast"])
+    family = src.pick(["general", "general", "reals", "semiring", "semiring", "gauss_chain", "gauss_int", "binders", "shaped", "shaped", "constant", "delta", "delta_ast", "delta_ast", "subs", "subs"])
     if family == "delta":
         return gen_delta_case(src)
+    if family == "subs":
+        # deliberately interacting substitution maps (C04's generator): one map, or two maps applied one after the other, so
+        # that the Subs-of-Subs fusion rules fire on values that mention later keys
+        from vf.gen import gen_sub_case
+
+        c = gen_sub_case(src, Opts(max_depth=2, reals=True, gauss=src.pick([False, True])))
+        ast = ("sub", c["f"], tuple(c["subs"]))
+        if c.get("subs2"):
+            ast = ("sub", ast, tuple(c["subs2"]))
+        typeof(ast)
+        return {"family": family, "ast": ast, "mode": src.pick(["eager", "eager", "lazy", "normalize", "reflect_then_eager"] if False else ["eager", "eager", "lazy", "normalize"])}
     if family == "shaped":
         # array-valued outputs: reshape / getslice / getitem / einsum / matmul / stack and cat of outputs / Lambda
         ast = gen_expr(src, Opts(max_depth=3, shaped=True, reals=src.pick([False, True, True])), src.pick([("real", ()), ("real", (2,)), ("real", (3,)), ("real", (2, 2)), ("real", (1, 3))]))
